@@ -823,6 +823,14 @@ def gen_c20(rng, profile):
 
     for _ in range(rng.randint(3, 12)):
         b = rng.randrange(nb)
+        if profile.get("batch") == "threads" and rng.random() < 0.35:
+            progs = [[{"k": "schema", "b": b, "params": builders[b], "what": "build",
+                       "type": type_for()} for _ in range(rng.choice([1, 1, 2]))]
+                     for _ in range(rng.randint(2, 3))]
+            ops.append({"k": "conc", "progs": progs, "sched": gen.gen_schedule(rng, 60000),
+                        "sseed": rng.getrandbits(32)})
+            ops.append({"k": "schema", "b": b, "params": builders[b], "what": "defs", "noref": True})
+            continue
         if rng.random() < 0.15:
             ops.append({"k": "schema", "b": b, "params": builders[b], "what": "defs", "noref": True})
         else:
@@ -863,6 +871,13 @@ def _check_metaschema(doc):
 def oracle_c20(ex, idx, op, out):
     if op["k"] != "schema":
         return None
+    if ex.ops[idx]["k"] == "conc":
+        # inside a concurrent batch only the per-call outcome is judged (against
+        # the twin); builder-wide invariants are evaluated at the next event
+        if out["s"] != "ok":
+            return {"class": "schema-build-crash:" + (out.get("e") or {}).get("type", out["s"]),
+                    "ref": None, "diff_at": None, "detail": "crash inside a concurrent batch"}
+        return None
     st = getattr(ex.sut, "schema_state", None)
     if st is None:
         return None
@@ -901,6 +916,9 @@ def oracle_c20(ex, idx, op, out):
     prefix = prefix.rstrip("/")
     refs = []
     for _, doc in docs:
+        _collect_refs(doc, refs)
+    # every schema this builder ever returned must still resolve
+    for doc in (getattr(ex.sut, "schema_log", {}) or {}).get(st.get("key"), []):
         _collect_refs(doc, refs)
     for r_ in refs:
         if not r_.startswith(prefix + "/"):
